@@ -1,5 +1,4 @@
 PROP = dict(
-    unclaimed=True,
     module="M3d.Props.C12",
     gen=["McTable"],
     corr=dict(quick=600, thorough=1500),
